@@ -127,7 +127,9 @@ static void run_case(const std::string& line, FILE* o)
     } else if (tok == "sp") {
       in >> a >> b;
       w.cn.at(std::stoi(a))->set_sharing_policy(pol(b), {});
-      w.sys->modified_ = true;
+      // set_sharing_policy does not flag the system (SimGrid calls it at platform creation only): register the change
+      // through the public API so that selective update knows this constraint was modified
+      w.sys->update_constraint_bound(w.cn.at(std::stoi(a)), w.cn.at(std::stoi(a))->bound_);
     } else if (tok == "cl") {
       in >> a >> b;
       w.cn.at(std::stoi(a))->set_concurrency_limit(std::stoi(b));
